@@ -10,7 +10,7 @@ SHARD = 25000
 
 def numeric(prop, src, build='asan', nq=20000, nt=1000000, groups_q=None, groups_t=None, float_groups=None,
             rule='', assumptions=(), level='exploration', timeout_q=900, timeout_t=7200, extra_defs=(), float_n_scale=1.0,
-            extra_bins=None, shard=SHARD, n_scale=None):
+            extra_bins=None, shard=SHARD, n_scale=None, post=None, min_shards=1):
     gq = groups_q if groups_q is not None else CORE + ['R1', 'R9'] + BUNDLES_Q
     gt = groups_t if groups_t is not None else CORE + ['R1', 'R9'] + BUNDLES_T
     fg = float_groups if float_groups is not None else CORE
@@ -41,11 +41,12 @@ def numeric(prop, src, build='asan', nq=20000, nt=1000000, groups_q=None, groups
             nn = n
             if 'MS=float' in b.defs: nn = int(n * float_n_scale)
             if n_scale: nn = max(1, int(nn * n_scale.get(b.defs[0][3:], 1.0)))
-            k = max(1, (nn + shard - 1) // shard)
+            k = max(min_shards, (nn + shard - 1) // shard)
             for sidx in range(k):
-                jobs.append({'bin': b, 'n': min(shard, nn - sidx * shard), 'seed': seed * 1000 + sidx, 'tag': '/'.join(d.split('=')[1] for d in b.defs[:2])})
+                jobs.append({'bin': b, 'n': max(2, min(shard, nn - sidx * shard) if k == (nn + shard - 1) // shard else nn // k), 'seed': seed * 1000 + sidx, 'tag': '/'.join(d.split('=')[1] for d in b.defs[:2])})
         fold, f2 = run_sharded(p, tier, seed, jobs, timeout_q if tier == 'quick' else timeout_t)
         if f2: fail = (fail or '') + f2
+        if post: post(fold)
         spec = {'rule': rule, 'assumptions': list(assumptions), 'level': level}
         return finish(p, tier, seed, fold, spec, t0, harness_fail=fail,
                       extra_cov={'groups': sorted(set(b.defs[0][3:] + '/' + b.defs[1][3:] for b in bs)), 'build': build, 'compile_s': round(dt, 1),
@@ -108,6 +109,27 @@ REGISTRY['C18'] = numeric('C18', 'c18_approx.cpp', nq=20000, nt=1000000,
                           rule='elements with coordinates from 0 and 1e-8 up to 1e9 (float: 1e4) and SGal3 times up to 1e3: reflexivity of isApprox/== (three eps), equality of q and -q; pairs Y = X (+) d with ||d||_inf = eps/100 and 100 eps for eps in {1e-12..1e-2}, '
                                'judged only when eps >= 1e4*u*max|coordinate|*max|time| (otherwise counted unresolvable); tangents with norms 1e-12..1e9: identical, against zero at eps/10 and 10 eps, relative at (1 +- eps/10) and (1 +- 10 eps); ' + RULE_STRATA,
                           assumptions=ASSUME_FP + ['X == X relies on bit-exact cancellation of X^-1*X, which holds only under the baseline FP model (no FMA contraction)'])
+
+def c09_post(fold):
+    # golden cases: one digest per (group, scalar) across all processes, whenever in the process they were computed
+    by = {}
+    for k in list(fold.counters):
+        if k.startswith('golden/'):
+            _, g, sc, hx = k.split('/'); by.setdefault(g + '/' + sc, {})[hx] = fold.counters[k]; del fold.counters[k]
+    for gs, d in by.items():
+        fold.counters['golden-digests/' + gs] = len(d)
+        fold.counters['golden-evaluations/' + gs] = sum(d.values())
+        if len(d) != 1:
+            fold.viol('results-differ-between-processes/' + gs, 1.0, {'digests': d})
+REGISTRY['C09'] = numeric('C09', 'c09_pure.cpp', nq=4000, nt=400000, min_shards=4, groups_q=CORE + ['R1', 'BT1', 'BT4'], post=c09_post,
+                          rule='17 Jacobian-returning operations x all subsets of their optional outputs ({}, G::_, real matrices, interior blocks of NaN-canary matrices at random offsets) on stratified operands; operands snapshotted bit-wise around every call; '
+                               '13 aliased assignment forms vs the unaliased computation; 20 fixed golden operand sets evaluated first thing in half of the processes and in the middle / at the end of every process: one digest per group across all processes; '
+                               + RULE_STRATA, assumptions=ASSUME_FP)
+
+REGISTRY['C10'] = numeric('C10', 'c10_views.cpp', nq=2500, nt=250000, groups_q=CORE + ['R1', 'R9', 'BT1', 'BT4'], groups_t=CORE + ['R1', 'R9'] + BUNDLES_T + ['BL0'],
+                          rule='~45 non-mutating operations evaluated with 9 combinations of operand kinds {owning, Map, Map<const>} for (X, Y, t) and compared bit for bit with the owning computation; 13 group and 12 tangent mutating members through a '
+                               'mutable view; every viewed buffer is, at random, an exactly-sized malloc block (ASan red-zones), the same shifted by one scalar (8-/4-byte-only alignment), or embedded between NaN-payload canaries compared bit for bit '
+                               'after each call; copy/move/cross-kind construction and assignment; ' + RULE_STRATA, assumptions=ASSUME_FP + ['ASan red-zones detect reads/writes adjacent to exactly-sized heap blocks; far out-of-bounds accesses could escape them'])
 
 def c08_spec():
     groups = [('SO2', 'double'), ('SE2', 'double'), ('SO3', 'double'), ('SE3', 'double'), ('SE23', 'double'), ('SGAL3', 'double'), ('BT1', 'double'), ('BT4', 'double'), ('SO3', 'float'), ('SE2', 'float'), ('SE3', 'float')]
@@ -385,6 +407,7 @@ REGISTRY['C19'] = c19_spec()
 # MANIFEST metadata
 # ------------------------------------------------------------------------------------------------
 ENGINES = [
+    {'name': 'bit-exact differential monitor', 'path': '/verif/harness/c09_pure.cpp', 'serves_properties': ['C09', 'C10', 'C11'], 'kind_free_text': 'same operands through different call forms / storage kinds / output subsets must give identical bits; guard zones and sanitizers watch memory'},
     {'name': 'tsan launcher', 'path': '/verif/harness/c14_threads.cpp', 'serves_properties': ['C14'], 'kind_free_text': 'ThreadSanitizer build launched many times; reports parsed from log_path files'},
     {'name': 'history monitor', 'path': '/verif/harness/c08_history.cpp', 'serves_properties': ['C08'], 'kind_free_text': 'online per-step invariant checker over random/adversarial operation sequences'},
     {'name': 'child-per-case enumerator', 'path': '/verif/harness/c17_decasteljau.cpp', 'serves_properties': ['C17'], 'kind_free_text': 'fork per configuration, parent watchdog, sanitizer + assertion aborts are verdicts'},
@@ -420,6 +443,12 @@ MANIFEST_META = {
     'C08': dict(engine='history monitor', design_ref='DESIGN.md 4/C08', technique='online invariant monitor over long random and adversarial operation histories (ASan+assertions build and NDEBUG -O2 build)',
                 text='After every step of histories of 6e4..2e7 steps per (group, schedule) every live element is checked against the library\'s own acceptance threshold recomputed in long double; the bound is enforced at each step, so it is independent of the history length by construction, and 1e5-step window maxima are recorded to show there is no trend; with assertions on, any escaping exception is a violation.',
                 note='Histories are random draws from a 21-operation alphabet plus five adversarial single-operation schedules; held on the histories executed. ' + NOTE_NUM),
+    'C09': dict(engine='bit-exact differential monitor', design_ref='DESIGN.md 4/C09', technique='bit-exact differential runtime monitor: all subsets of optional outputs, NaN-canary block outputs, operand snapshots, aliasing, cross-process golden digests',
+                text='Every Jacobian-returning operation is called with every subset of its optional outputs on the same operands; values and Jacobians must be bit-identical across subsets, an output bound to an interior block of a NaN-canary matrix must write exactly that block, operands are compared bit-wise before/after, 13 aliased assignment forms must equal the unaliased computation, and fixed golden cases must produce one digest whether they are the first library activity of a process or follow thousands of other calls.',
+                note='Bit-identity is a sound expectation for pure forwards under the baseline FP model; held on the operand sets and call orders executed. ' + NOTE_NUM),
+    'C10': dict(engine='bit-exact differential monitor', design_ref='DESIGN.md 4/C10', technique='bit-exact differential runtime monitor over operand storage kinds with guard zones (NaN canaries) and ASan red-zones on exactly-sized blocks',
+                text='About 45 operations are evaluated for 9 combinations of {owning, Map, Map<const>} operand kinds and must reproduce the owning computation bit for bit; 25 mutating members executed through mutable views must change exactly the viewed RepSize/DoF scalars: buffers are exactly-sized heap blocks (ASan red-zones), misaligned variants, or embedded between canaries compared bit-wise after every call.',
+                note='ASan red-zones catch adjacent overruns only; intra-buffer errors are caught by the canaries and by value comparison. ' + NOTE_NUM),
     'C14': dict(engine='tsan launcher', design_ref='DESIGN.md 4/C14', technique='ThreadSanitizer over many process launches with barrier-released concurrent first use of every static + bit-exact comparison with a single-threaded run',
                 text='Each launch releases 2..16 threads from a spinning barrier into the first use in the process of every function-local static of 11 group instantiations and then into 22 const operations per group on shared const elements, tangents and Map<const> views; ThreadSanitizer reports with a frame in /repo/include are violations (counted from log files, deduplicated by innermost manif frames), and every thread must reproduce the single-threaded values bit for bit.',
                 note='Schedules: 48 (quick) / 1500 (thorough) launches, each one first-use schedule (distinct schedule signatures are counted in the evidence); held on those schedules only. TSan sees only what gcc instruments; Random()/setRandom() are excluded (rand()).', ),
